@@ -135,3 +135,51 @@ def facetStream (resets : Nat) (sep : Nat) (fs : List Filter) (left : List Nat) 
     (fun t => ⟨0, 0, 0, t⟩)
 
 end TantivyModel.Tok
+
+namespace TantivyModel.Tok
+
+/-- everything an analyzer `Simple|Whitespace tokenizer → LowerCaser → SplitCompoundWords` keeps
+between streams: the tokenizer's position counter, the lower-caser's buffer, the splitter's parts -/
+structure AnalyzerState where
+  pos : Nat
+  lowerBuf : List Nat
+  parts : PartsBuf
+
+/-- `token_stream(s)` on such an analyzer in state `st`, read for `k` tokens and dropped: every
+component (re)initialises its buffers as the source says (`Gen.*`) -/
+def analyzerRun (p : Cp → Bool) (f : Nat → List Nat) (g : List Nat → Option (List (List Nat)))
+    (st : AnalyzerState) (s : Text) (k : Nat) : List Token :=
+  let toks := scanStream Gen.TOKENIZERS_RESET_TOKEN Gen.TOKEN_RESET_POSITION_IS_MAX p st.pos s
+  let low := (bufferedStream (lowerStep Gen.LOWERCASER_CLEARS_OUTPUT f) st.lowerBuf toks).1
+  (splitRun g k (splitNewStream Gen.SPLIT_COMPOUND_CLEARS_PARTS st.parts) low).1
+
+end TantivyModel.Tok
+
+namespace TantivyModel.Tok
+
+/-- the reusable buffers one filter of a chain keeps in the analyzer -/
+structure FilterState where
+  buf : List Nat
+  parts : PartsBuf
+
+/-- everything a drained stream of filter `f` yields over the tokens of its tail when its buffers
+hold `st` at stream creation (filters without buffers are their stateless selves); `owned` = which
+`Cow` case the stemming library reports -/
+def Filter.stream (owned : List Nat → Bool) (f : Filter) (st : FilterState) (inner : List Token) :
+    List Token :=
+  match f with
+  | .lower g => (bufferedStream (lowerStep Gen.LOWERCASER_CLEARS_OUTPUT g) st.buf inner).1
+  | .fold g => (bufferedStream (foldStep Gen.ASCII_FOLDING_CLEARS_OUTPUT g) st.buf inner).1
+  | .stem g => (bufferedStream (stemStep Gen.STEMMER_CLEARS_BUFFER g owned) st.buf inner).1
+  | .split g =>
+    (splitRun g (st.parts.length + ((Filter.split g).apply inner).length)
+      (splitNewStream Gen.SPLIT_COMPOUND_CLEARS_PARTS st.parts) inner).1
+  | other => other.apply inner
+
+/-- a whole chain, innermost filter first, each with its own buffers -/
+def chainStream (owned : List Nat → Bool) : List Filter → List FilterState → List Token → List Token
+  | [], _, ts => ts
+  | f :: fs, st :: sts, ts => chainStream owned fs sts (f.stream owned st ts)
+  | f :: fs, [], ts => chainStream owned fs [] (f.stream owned ⟨[], []⟩ ts)
+
+end TantivyModel.Tok
